@@ -29,10 +29,17 @@ _POWER_ASSUME = ['power loss: directory operations (create/rename/unlink) are ta
                  'file data is durable exactly when fsync\'ed; the adversary is the minimal survivor (synced bytes only) - intermediate '
                  'survivors between synced and written length are covered by the theorem and by C10 truncation, not replayed here',
                  'strace renders the system calls faithfully; if strace cannot attach in the sandbox the component is skipped and the evidence says so']
-_C02_COMPS = [CRASH] + ([POWER] if power.strace_usable() else [])
+from oracledefs import walfault as _wf2
+WALFAULT_C02 = Comp('walfault', n_quick=24, n_thorough=600, oracle=_wf2.walfault_oracle, nontrivial=_wf2.walfault_nontrivial,
+                    stats=_wf2.walfault_stats, chunk_min=4, timeout=1200)
+_WF_RULE = (' Plus component walfault (see C10): a log cut at ANY byte offset is a crash image (the kill fell inside a write, or the tail '
+            'was not on disk yet) - also a cut exactly at the end of a physical record inside a fragmented entry, and a cut log file that has '
+            'reached wal_max_size (recovery does not reuse or cut it); the real engine opened on it holds exactly the complete entries before '
+            'the cut, moves no log file aside, and what it acknowledges afterwards is visible at once and after a restart.')
+_C02_COMPS = [CRASH] + ([POWER] if power.strace_usable() else []) + [WALFAULT_C02]
 
 reg(Prop('C02', 'Kevo.Props.C02', facts=['facts:wal.*', 'facts:storage.*'], components=_C02_COMPS, fact_tags=['wal', 'storage'],
-         rule=_RULE + (_POWER_RULE if len(_C02_COMPS) > 1 else ' (component power SKIPPED: strace unusable here)'), assumptions=_ASSUME + _POWER_ASSUME))
+         rule=_RULE + (_POWER_RULE if POWER in _C02_COMPS else ' (component power SKIPPED: strace unusable here)') + _WF_RULE, assumptions=_ASSUME + _POWER_ASSUME))
 from oracledefs import walfault, txvis, engine as _eng
 ENGINE_C03 = Comp('engine', n_quick=120, n_thorough=2000, oracle=_eng.engine_oracle, nontrivial=_eng.engine_nontrivial, stats=_eng.engine_stats,
                   chunk_min=10, timeout=900)
